@@ -17,7 +17,7 @@ CONFIG = {
     ],
     "modelled": ["cache.SetUMoney", "cache.DeUMoney", "cache.MoneyOf", "cache.passwdUpdateMoney", "ptttype.UID.ToUIDInStore",
                  "ptt.passwdSyncQuery (through ptt.GetUser)", "ptt.passwdSyncUpdate (through ptt.SetUserPerm)",
-                 "cmbbs.PasswdQuery", "cmbbs.PasswdUpdate", "ptt.SetupNewUser (tail after cache.SetUserID)",
+                 "cmbbs.PasswdQuery", "cmbbs.PasswdUpdate", "ptt.SetupNewUser (tail after cache.SetUserID)", "ptt.killUser (record / balance part; reached through tryCleanUser -> checkAndExpireAccount)",
                  "cache.LoadUHash / fillUHash / userecRawAddToUHash (Userid, Money, invalid-id counter; fresh and on-the-fly; the hash chains are C04's)",
                  "ptttype.USE_COOLDOWN (site configuration, driven in both values)", "UserID_t.IsValid, types.Cstrcmp on user ids", "encoding/binary bool normalisation of UserecRaw"],
     "assumptions": [
@@ -29,6 +29,7 @@ CONFIG = {
         "registration: only the money/record tail of ptt.SetupNewUser (SetUMoney, passwdSyncUpdate, in the order regenerated from the source) is modelled; id lookup, slot search and locking are C03/C15",
         "the loader theorems are for a .PASSWDS of exactly MAX_USERS records (short, torn, long and missing files are compared with the model, not judged); MAX_USERS <= PRE_ALLOCATED_USERS (checked over the regenerated constants), so the invalid-id skip of the loader is unreachable",
         "an on-the-fly reload refills only slots whose owner changed: a slot whose Money alone was edited on disk keeps its SHM value (as in pttbbs); recorded and compared, not judged as a defect",
+        "which accounts the clean-up sweep removes (clock, KEEP_DAYS_*, PERM_XEMPT: the account model, C03) is observed from .PASSWDS, not modelled; the oracle only requires that the accounts the history aged far beyond the limits are removed and that exempt / recent ones and slot 1 are not",
         "single writer: concurrent SetUMoney/DeUMoney on one slot are outside this property",
         "MoneyOf on an invalid slot panics (index out of range); it writes nothing and is recorded, not judged",
     ],
